@@ -1,6 +1,8 @@
 (* trend.MovingMax / trend.MovingMin (generated [trend_MovingMax_Compute], [trend_MovingMin_Compute]): the binary
-   search tree used as a sliding-window multiset yields the window maximum / minimum, provided the first p inputs
-   are non-zero (the fill value 0 of the Shift is "removed" during the first p steps, which deletes a genuine 0). *)
+   search tree used as a sliding-window multiset yields the window maximum / minimum, for all inputs.
+   History: the code used to "remove" the Shift's fill value 0 during the first p steps, which deleted a genuine 0
+   among the first p inputs; the theorems then needed "the first p inputs are non-zero".  The code now counts the
+   first p steps and does not remove during them; the hypothesis-carrying statements are kept for their users. *)
 From Coq Require Import List ZArith Bool Lia Reals Lra Permutation.
 Import ListNotations.
 From Verif Require Import Base.Num Base.Stream Base.GenPrelude Data.Bst Data.BstProofs Spec.Window Gen.All.
@@ -78,13 +80,13 @@ Proof.
 Qed.
 
 (* ------------------------------------------------------------------------------------------ *)
-(* The fold: insert the new value, remove the value that was new p steps before, report g of the tree. *)
+(* The fold: insert the new value; once p values have been inserted, remove the value that was new p steps before;
+   report g of the tree.  The state is the tree and the number of warm-up steps done. *)
 
 Section Moving.
   Variable xs : list R.
   Variable P : nat.
   Hypothesis HP : 1 <= P.
-  Hypothesis Hnz : Forall (fun x => x <> 0%R) (firstn P xs).
   Variable g : tree R -> R.
   Variable G : list R -> R.
   Hypothesis gG : forall t m, bst_ok R Rleb t -> Permutation (elements R t) m -> g t = G m.
@@ -92,105 +94,105 @@ Section Moving.
   (* the last min(k,P) inputs before position k *)
   Definition W (k : nat) : list R := map (at_ xs) (seq (k - P) (Nat.min k P)).
 
-  Definition stepf (t : tree R) (c b : R) : tree R * R :=
+  Definition stepf (st : tree R * Z) : R -> R -> (tree R * Z) * R :=
+    let '(t, n) := st in fun c b =>
     let t1 := bst_insert (N:=NumR) c t in
-    let t2 := bst_remove (N:=NumR) b t1 in (t2, g t2).
-
-  Lemma at_nonzero : forall j, j < P -> j < length xs -> at_ xs j <> 0%R.
-  Proof.
-    intros j H1 H2. rewrite Forall_forall in Hnz. apply Hnz. unfold at_. apply nth_In_firstn; assumption.
-  Qed.
+    if Z.ltb n (Z.of_nat P)
+    then let n := Z.add n 1%Z in ((t1, n), g t1)
+    else let t2 := bst_remove (N:=NumR) b t1 in ((t2, n), g t2).
 
   Lemma W_small : forall k, k <= P -> W k = map (at_ xs) (seq 0 k).
   Proof.
     intros k H. unfold W. replace (k - P) with 0 by lia. replace (Nat.min k P) with k by lia. reflexivity.
   Qed.
 
-  Lemma W_small_nonzero : forall k, k <= P -> k <= length xs -> ~ In 0%R (W k).
-  Proof.
-    intros k H1 H2 Hin. rewrite (W_small k H1) in Hin. apply in_map_iff in Hin.
-    destruct Hin as (j & Hj & Hin). apply in_seq in Hin. apply (at_nonzero j); [lia | lia | exact Hj].
-  Qed.
-
+  (* invariant: after k steps the tree holds exactly the last min(k,P) inputs and the counter is min(k,P) *)
   Lemma step_inv : forall k t,
       k < length xs -> bst_ok R Rleb t -> Permutation (elements R t) (W k) ->
-      let b := nth k (repeat 0%R P ++ xs) 0%R in
-      let t2 := fst (remove R Rltb Reqb b (insert R Rleb (at_ xs k) t)) in
-      bst_ok R Rleb t2 /\ Permutation (elements R t2) (W (S k)).
+      exists t2,
+        stepf (t, Z.of_nat (Nat.min k P)) (at_ xs k) (nth k (repeat 0%R P ++ xs) 0%R)
+        = ((t2, Z.of_nat (Nat.min (S k) P)), g t2)
+        /\ bst_ok R Rleb t2 /\ Permutation (elements R t2) (W (S k)).
   Proof.
-    intros k t Hk Hok Hp b t2.
+    intros k t Hk Hok Hp.
+    set (b := nth k (repeat 0%R P ++ xs) 0%R).
     set (x := at_ xs k) in *.
+    unfold stepf, bst_insert, bst_remove. cbn [nleb nltb neqb NumR].
     set (t1 := insert R Rleb x t) in *.
     assert (Hok1 : bst_ok R Rleb t1) by (apply (insert_ok R Rleb Rltb Reqb total_order_R); exact Hok).
     assert (Hp1 : Permutation (elements R t1) (x :: W k)).
     { apply Permutation_trans with (x :: elements R t); [apply insert_elements | apply perm_skip; exact Hp]. }
-    split; [apply (remove_ok R Rleb Rltb Reqb total_order_R); exact Hok1|].
-    pose proof (remove_flag R Rltb Reqb b t1) as Hflag.
-    pose proof (contains_In R Rleb Rltb Reqb total_order_R b t1 Hok1) as Hcont.
-    destruct (Nat.lt_ge_cases k P) as [HkP|HkP].
-    - (* warm-up: the fill value 0 is removed, and it is not in the tree *)
-      assert (Hb : b = 0%R).
-      { unfold b. rewrite app_nth1 by (rewrite repeat_length; exact HkP). apply nth_repeat. }
-      assert (HW : W (S k) = W k ++ [x]).
-      { rewrite !W_small by lia. rewrite seq_S, map_app. reflexivity. }
-      assert (Hnot : ~ In b (elements R t1)).
-      { intros Hin. rewrite Hb in Hin. apply (Permutation_in _ Hp1) in Hin.
-        apply (W_small_nonzero (S k)); [lia | lia |]. rewrite HW. apply in_or_app.
-        destruct Hin as [Hin|Hin]; [right; left; exact Hin | left; exact Hin]. }
-      destruct (snd (remove R Rltb Reqb b t1)) eqn:E.
-      + exfalso. apply Hnot. apply Hcont. symmetry. exact Hflag.
-      + unfold t2. rewrite (remove_false R Rltb Reqb b t1 E). rewrite HW.
+    destruct (Z.ltb_spec (Z.of_nat (Nat.min k P)) (Z.of_nat P)) as [HkP|HkP].
+    - (* warm-up: nothing is removed *)
+      assert (HkP' : k < P) by lia.
+      exists t1. split; [|split].
+      + replace (Z.of_nat (Nat.min (S k) P)) with (Z.of_nat (Nat.min k P) + 1)%Z by lia. reflexivity.
+      + exact Hok1.
+      + rewrite (W_small (S k)) by lia. rewrite seq_S, map_app. rewrite <- (W_small k) by lia.
         apply Permutation_trans with (x :: W k); [exact Hp1 | apply Permutation_cons_append].
     - (* full window: the oldest value is removed *)
-      assert (Hb : b = at_ xs (k - P)).
-      { unfold b. rewrite app_nth2 by (rewrite repeat_length; lia). rewrite repeat_length. reflexivity. }
-      set (W' := map (at_ xs) (seq (S (k - P)) (P - 1))).
-      assert (HW0 : W k = b :: W').
-      { unfold W. replace (Nat.min k P) with (S (P - 1)) by lia. rewrite Hb. reflexivity. }
-      assert (HW1 : W (S k) = W' ++ [x]).
-      { unfold W. replace (Nat.min (S k) P) with (S (P - 1)) by lia.
-        replace (S k - P) with (S (k - P)) by lia.
-        rewrite seq_S, map_app. unfold W', x. simpl. repeat f_equal. lia. }
-      assert (Hin : In b (elements R t1)).
-      { apply (Permutation_in _ (Permutation_sym Hp1)). right. rewrite HW0. left. reflexivity. }
-      destruct (snd (remove R Rltb Reqb b t1)) eqn:E.
-      + pose proof (remove_true R Rleb Rltb Reqb total_order_R b t1 E) as Ht. fold t2 in Ht.
-        rewrite HW1. apply Permutation_trans with (x :: W'); [|apply Permutation_cons_append].
-        apply Permutation_cons_inv with b.
-        apply Permutation_trans with (elements R t1); [apply Permutation_sym; exact Ht|].
-        apply Permutation_trans with (x :: W k); [exact Hp1|].
-        rewrite HW0. apply perm_swap.
-      + exfalso. apply Hcont in Hin. rewrite <- Hflag in Hin. congruence.
+      assert (HkP' : P <= k) by lia.
+      exists (fst (remove R Rltb Reqb b t1)). split; [|split].
+      + replace (Z.of_nat (Nat.min (S k) P)) with (Z.of_nat (Nat.min k P)) by lia. reflexivity.
+      + apply (remove_ok R Rleb Rltb Reqb total_order_R); exact Hok1.
+      + pose proof (remove_flag R Rltb Reqb b t1) as Hflag.
+        pose proof (contains_In R Rleb Rltb Reqb total_order_R b t1 Hok1) as Hcont.
+        assert (Hb : b = at_ xs (k - P)).
+        { unfold b. rewrite app_nth2 by (rewrite repeat_length; lia). rewrite repeat_length. reflexivity. }
+        set (W' := map (at_ xs) (seq (S (k - P)) (P - 1))).
+        assert (HW0 : W k = b :: W').
+        { unfold W. replace (Nat.min k P) with (S (P - 1)) by lia. rewrite Hb. reflexivity. }
+        assert (HW1 : W (S k) = W' ++ [x]).
+        { unfold W. replace (Nat.min (S k) P) with (S (P - 1)) by lia.
+          replace (S k - P) with (S (k - P)) by lia.
+          rewrite seq_S, map_app. unfold W', x. simpl. repeat f_equal. lia. }
+        assert (Hin : In b (elements R t1)).
+        { apply (Permutation_in _ (Permutation_sym Hp1)). right. rewrite HW0. left. reflexivity. }
+        destruct (snd (remove R Rltb Reqb b t1)) eqn:E.
+        * pose proof (remove_true R Rleb Rltb Reqb total_order_R b t1 E) as Ht.
+          rewrite HW1. apply Permutation_trans with (x :: W'); [|apply Permutation_cons_append].
+          apply Permutation_cons_inv with b.
+          apply Permutation_trans with (elements R t1); [apply Permutation_sym; exact Ht|].
+          apply Permutation_trans with (x :: W k); [exact Hp1|].
+          rewrite HW0. apply perm_swap.
+        * exfalso. apply Hcont in Hin. rewrite <- Hflag in Hin. congruence.
   Qed.
 
-  Lemma stepf_cons : forall t x a y b,
-      s_op2st stepf t (x :: a) (y :: b)
-      = g (fst (remove R Rltb Reqb y (insert R Rleb x t)))
-          :: s_op2st stepf (fst (remove R Rltb Reqb y (insert R Rleb x t))) a b.
-  Proof. reflexivity. Qed.
+  Lemma stepf_cons : forall st x a y b,
+      s_op2st stepf st (x :: a) (y :: b)
+      = snd (stepf st x y) :: s_op2st stepf (fst (stepf st x y)) a b.
+  Proof. intros. cbn [s_op2st]. destruct (stepf st x y). reflexivity. Qed.
 
   Lemma run_from : forall rest k t,
       rest = skipn k xs ->
       bst_ok R Rleb t -> Permutation (elements R t) (W k) ->
-      s_op2st stepf t rest (skipn k (repeat 0%R P ++ xs))
+      s_op2st stepf (t, Z.of_nat (Nat.min k P)) rest (skipn k (repeat 0%R P ++ xs))
       = map (fun i => G (W (S i))) (seq k (length rest)).
   Proof.
     induction rest as [|x rest IH]; intros k t Hrest Hok Hp; [reflexivity|].
     destruct (skipn_cons_inv 0%R k xs x rest Hrest) as (Hk & Hx & Hrest').
     rewrite (skipn_nth_cons 0%R k (repeat 0%R P ++ xs))
       by (rewrite app_length, repeat_length; lia).
-    destruct (step_inv k t Hk Hok Hp) as [Hok2 Hp2].
-    rewrite stepf_cons. simpl length. rewrite <- cons_seq. rewrite map_cons. f_equal.
-    - subst x. apply gG; [exact Hok2 | exact Hp2].
-    - subst x. apply IH; [exact Hrest' | exact Hok2 | exact Hp2].
+    destruct (step_inv k t Hk Hok Hp) as (t2 & Est & Hok2 & Hp2).
+    rewrite stepf_cons. subst x. fold (at_ xs k). rewrite Est. cbn [fst snd].
+    simpl length. rewrite <- cons_seq. rewrite map_cons. f_equal.
+    - apply gG; [exact Hok2 | exact Hp2].
+    - apply IH; [exact Hrest' | exact Hok2 | exact Hp2].
+  Qed.
+
+  Lemma run_full :
+    s_op2st stepf (Leaf, 0%Z) xs (repeat 0%R P ++ xs)
+    = map (fun i => G (W (S i))) (seq 0 (length xs)).
+  Proof.
+    pose proof (run_from xs 0 Leaf eq_refl I) as H. simpl skipn in H.
+    apply H. unfold W; simpl; apply perm_nil.
   Qed.
 
   Lemma run_all :
-    skipn (P - 1) (s_op2st stepf Leaf xs (repeat 0%R P ++ xs))
+    skipn (P - 1) (s_op2st stepf (Leaf, 0%Z) xs (repeat 0%R P ++ xs))
     = map (fun i => G (window P xs i)) (seq (P - 1) (length xs - (P - 1))).
   Proof.
-    pose proof (run_from xs 0 Leaf eq_refl I) as H. simpl skipn in H.
-    rewrite H by (unfold W; simpl; apply perm_nil).
+    rewrite run_full.
     rewrite skipn_map, skipn_seq_. simpl.
     apply map_ext_in. intros i Hi. apply in_seq in Hi. f_equal.
     unfold W, window. replace (Nat.min (S i) P) with P by lia.
@@ -198,67 +200,83 @@ Section Moving.
   Qed.
 End Moving.
 
+Lemma tmax_G : forall t m, bst_ok R Rleb t -> Permutation (elements R t) m -> tmax R 0%R t = Rlist_max m.
+Proof.
+  intros t m Hok Hperm. rewrite <- list_max_Rlist_max.
+  apply (tmax_list_max R 0%R Rleb Rltb Reqb total_order_R); assumption.
+Qed.
+
+Lemma tmin_G : forall t m, bst_ok R Rleb t -> Permutation (elements R t) m -> tmin R 0%R t = Rlist_min m.
+Proof.
+  intros t m Hok Hperm. rewrite <- list_min_Rlist_min.
+  apply (tmin_list_min R 0%R Rleb Rltb Reqb total_order_R); assumption.
+Qed.
+
 (* ------------------------------------------------------------------------------------------ *)
-(* The generated code *)
+(* The generated code, over an arbitrary input expression and for all inputs *)
+
+Lemma moving_max_sem {I} (p : Z) (e : expr I R) (env : list (list I)) :
+  (1 <= p)%Z ->
+  sem (trend_MovingMax_Compute (T:=R) (I:=I) (mk_trend_MovingMax p) e) env
+  = skipn (Z.to_nat p - 1)
+      (s_op2st (stepf (Z.to_nat p) (tmax R 0%R)) (Leaf, 0%Z) (sem e env) (repeat 0%R (Z.to_nat p) ++ sem e env)).
+Proof.
+  intros Hp.
+  replace (Z.to_nat p - 1) with (Z.to_nat (p - 1)) by lia.
+  unfold stepf. rewrite (Z2Nat.id p) by lia. reflexivity.
+Qed.
+
+Lemma moving_min_sem {I} (p : Z) (e : expr I R) (env : list (list I)) :
+  (1 <= p)%Z ->
+  sem (trend_MovingMin_Compute (T:=R) (I:=I) (mk_trend_MovingMin p) e) env
+  = skipn (Z.to_nat p - 1)
+      (s_op2st (stepf (Z.to_nat p) (tmin R 0%R)) (Leaf, 0%Z) (sem e env) (repeat 0%R (Z.to_nat p) ++ sem e env)).
+Proof.
+  intros Hp.
+  replace (Z.to_nat p - 1) with (Z.to_nat (p - 1)) by lia.
+  unfold stepf. rewrite (Z2Nat.id p) by lia. reflexivity.
+Qed.
+
+Theorem moving_max_is_window_max_expr_all {I} (p : Z) (e : expr I R) (env : list (list I)) :
+  (1 <= p)%Z ->
+  sem (trend_MovingMax_Compute (T:=R) (I:=I) (mk_trend_MovingMax p) e) env
+  = tab (Z.to_nat p - 1) (length (sem e env)) (wmax (Z.to_nat p) (sem e env)).
+Proof.
+  intros Hp. rewrite moving_max_sem by exact Hp.
+  rewrite (run_all (sem e env) (Z.to_nat p) ltac:(lia) (tmax R 0%R) Rlist_max tmax_G). reflexivity.
+Qed.
+
+Theorem moving_min_is_window_min_expr_all {I} (p : Z) (e : expr I R) (env : list (list I)) :
+  (1 <= p)%Z ->
+  sem (trend_MovingMin_Compute (T:=R) (I:=I) (mk_trend_MovingMin p) e) env
+  = tab (Z.to_nat p - 1) (length (sem e env)) (wmin (Z.to_nat p) (sem e env)).
+Proof.
+  intros Hp. rewrite moving_min_sem by exact Hp.
+  rewrite (run_all (sem e env) (Z.to_nat p) ltac:(lia) (tmin R 0%R) Rlist_min tmin_G). reflexivity.
+Qed.
+
+Theorem moving_max_is_window_max_all (p : Z) (xs : list R) :
+  (1 <= p)%Z ->
+  sem (trend_MovingMax_Compute (T:=R) (I:=R) (mk_trend_MovingMax p) (EIn 0)) [xs]
+  = tab (Z.to_nat p - 1) (length xs) (wmax (Z.to_nat p) xs).
+Proof. intros Hp. exact (moving_max_is_window_max_expr_all p (EIn 0) [xs] Hp). Qed.
+
+Theorem moving_min_is_window_min_all (p : Z) (xs : list R) :
+  (1 <= p)%Z ->
+  sem (trend_MovingMin_Compute (T:=R) (I:=R) (mk_trend_MovingMin p) (EIn 0)) [xs]
+  = tab (Z.to_nat p - 1) (length xs) (wmin (Z.to_nat p) xs).
+Proof. intros Hp. exact (moving_min_is_window_min_expr_all p (EIn 0) [xs] Hp). Qed.
+
+(* The earlier statements, with the non-zero hypothesis that the old code needed (kept for their users) *)
 
 Theorem moving_max_is_window_max (p : Z) (xs : list R) :
   (1 <= p)%Z -> Forall (fun x => x <> 0%R) (firstn (Z.to_nat p) xs) ->
   sem (trend_MovingMax_Compute (T:=R) (I:=R) (mk_trend_MovingMax p) (EIn 0)) [xs]
   = tab (Z.to_nat p - 1) (length xs) (wmax (Z.to_nat p) xs).
-Proof.
-  intros Hp Hnz.
-  change (sem (trend_MovingMax_Compute (T:=R) (I:=R) (mk_trend_MovingMax p) (EIn 0)) [xs])
-    with (skipn (Z.to_nat (p - 1))
-            (s_op2st (stepf (tmax R 0%R)) Leaf xs (repeat 0%R (Z.to_nat p) ++ xs))).
-  replace (Z.to_nat (p - 1)) with (Z.to_nat p - 1) by lia.
-  rewrite (run_all xs (Z.to_nat p) ltac:(lia) Hnz (tmax R 0%R) Rlist_max).
-  - reflexivity.
-  - intros t m Hok Hperm. rewrite <- list_max_Rlist_max.
-    apply (tmax_list_max R 0%R Rleb Rltb Reqb total_order_R); assumption.
-Qed.
+Proof. intros Hp _. exact (moving_max_is_window_max_all p xs Hp). Qed.
 
 Theorem moving_min_is_window_min (p : Z) (xs : list R) :
   (1 <= p)%Z -> Forall (fun x => x <> 0%R) (firstn (Z.to_nat p) xs) ->
   sem (trend_MovingMin_Compute (T:=R) (I:=R) (mk_trend_MovingMin p) (EIn 0)) [xs]
   = tab (Z.to_nat p - 1) (length xs) (wmin (Z.to_nat p) xs).
-Proof.
-  intros Hp Hnz.
-  change (sem (trend_MovingMin_Compute (T:=R) (I:=R) (mk_trend_MovingMin p) (EIn 0)) [xs])
-    with (skipn (Z.to_nat (p - 1))
-            (s_op2st (stepf (tmin R 0%R)) Leaf xs (repeat 0%R (Z.to_nat p) ++ xs))).
-  replace (Z.to_nat (p - 1)) with (Z.to_nat p - 1) by lia.
-  rewrite (run_all xs (Z.to_nat p) ltac:(lia) Hnz (tmin R 0%R) Rlist_min).
-  - reflexivity.
-  - intros t m Hok Hperm. rewrite <- list_min_Rlist_min.
-    apply (tmin_list_min R 0%R Rleb Rltb Reqb total_order_R); assumption.
-Qed.
-
-(* ------------------------------------------------------------------------------------------ *)
-(* The non-zero hypothesis matters: p = 3, xs = [0; 5; 7; 8]: the code gives [5; 5], the window minimum is [0; 5]. *)
-
-Ltac dec_step :=
-  match goal with
-  | |- context [Rle_dec ?a ?b] => destruct (Rle_dec a b); [try (exfalso; lra) | try (exfalso; lra)]
-  | |- context [Rlt_dec ?a ?b] => destruct (Rlt_dec a b); [try (exfalso; lra) | try (exfalso; lra)]
-  | |- context [Req_EM_T ?a ?b] => destruct (Req_EM_T a b); [try (exfalso; lra) | try (exfalso; lra)]
-  end.
-
-Theorem moving_min_zero_refuted :
-  exists (p : Z) (xs : list R),
-    (1 <= p)%Z /\
-    sem (trend_MovingMin_Compute (T:=R) (I:=R) (mk_trend_MovingMin p) (EIn 0)) [xs]
-    <> tab (Z.to_nat p - 1) (length xs) (wmin (Z.to_nat p) xs).
-Proof.
-  exists 3%Z, [0; 5; 7; 8]%R. split; [lia|].
-  assert (E : sem (trend_MovingMin_Compute (T:=R) (I:=R) (mk_trend_MovingMin 3) (EIn 0)) [[0; 5; 7; 8]%R]
-              = [5; 5]%R).
-  { cbv [sem trend_MovingMin_Compute trend_MovingMin_Period nth s_skip s_shift].
-    change (Z.to_nat (3 - 1)) with 2%nat. change (Z.to_nat 3) with 3%nat.
-    cbn [repeat app skipn s_op2st].
-    cbv [bst_insert bst_remove bst_min bst_empty nleb nltb neqb nzero nofZ NumR Rleb Rltb Reqb].
-    cbn [insert remove fst snd remove_root tmin leftmost].
-    repeat (dec_step; cbn [insert remove fst snd remove_root tmin leftmost pop_min]).
-    reflexivity. }
-  rewrite E. cbv [tab wmin window Rlist_min]. simpl.
-  unfold at_; simpl. unfold Rmin. repeat dec_step; intros H; inversion H; lra.
-Qed.
+Proof. intros Hp _. exact (moving_min_is_window_min_all p xs Hp). Qed.
